@@ -1,0 +1,58 @@
+//go:build verif
+
+// Contracts for transformer.TransformModFile (property C15), checked by govc.
+// Comments and import anchors only; compiled only with -tags verif.
+package transformer
+
+// plainEntry(s): the manifest entry uses no percent-encoding, no '+' and no Windows separator.
+//@ spec plainEntry(s string) bool = !contains(s, "%") && !contains(s, "+") && !contains(s, "\\")
+
+// safePath(p): the four rules of C15 on a returned path. A ".." path segment is spelled out as its four possible
+// positions in a '/'-separated path.
+//@ spec noDotDotSegment(p string) bool = p != ".." && !hasPrefix(p, "../") && !hasSuffix(p, "/..") && !contains(p, "/../")
+
+// The code tests three things on the normalised path: no "../" substring, no leading "/", suffix ".fga". The C15
+// rule "no '..' path segment" follows from two of them: a ".." segment that is not last is followed by '/', i.e. is a
+// "../" substring; a last (or only) ".." segment is impossible for a string that ends in ".fga" ("x/.." + ".fga" is the
+// path "x/...fga", whose last segment is "...fga", not "..").
+//@ lemma dotdot_only {C15}:   forall p string :: hasSuffix(p, ".fga") ==> p != ".."
+//@ lemma dotdot_last {C15}:   forall p string :: hasSuffix(p, ".fga") ==> !hasSuffix(p, "/..")
+//@ lemma dotdot_first {C15}:  forall p string :: !contains(p, "../") ==> !hasPrefix(p, "../")
+//@ lemma dotdot_middle {C15}: forall p string :: !contains(p, "../") ==> !contains(p, "/../")
+//@ lemma dotdot_segment {C15}: forall p string :: hasSuffix(p, ".fga") && !contains(p, "../") ==> noDotDotSegment(p)
+
+//@ func TransformModFile
+//@   props C15 C08
+//@   ensures error_no_result: err != nil ==> result0 == nil
+//@   ensures accepted_result: err == nil ==> result0 != nil && fresh(result0)
+//@   ensures schema_1_2: err == nil ==> result0.Schema.Value == "1.2"
+//@   ensures path_relative: err == nil ==> (forall i int :: 0 <= i && i < len(result0.Contents.Value) ==> !hasPrefix(result0.Contents.Value[i].Value, "/"))
+//@   ensures path_no_backslash: err == nil ==> (forall i int :: 0 <= i && i < len(result0.Contents.Value) ==> !contains(result0.Contents.Value[i].Value, "\\"))
+//@   ensures path_fga_suffix: err == nil ==> (forall i int :: 0 <= i && i < len(result0.Contents.Value) ==> hasSuffix(result0.Contents.Value[i].Value, ".fga"))
+//@   ensures path_not_dotdot:   err == nil ==> (forall i int :: 0 <= i && i < len(result0.Contents.Value) ==> result0.Contents.Value[i].Value != "..")
+//@   ensures path_no_dotdot_prefix: err == nil ==> (forall i int :: 0 <= i && i < len(result0.Contents.Value) ==> !hasPrefix(result0.Contents.Value[i].Value, "../"))
+//@   ensures path_no_dotdot_suffix: err == nil ==> (forall i int :: 0 <= i && i < len(result0.Contents.Value) ==> !hasSuffix(result0.Contents.Value[i].Value, "/.."))
+//@   ensures path_no_dotdot_infix:  err == nil ==> (forall i int :: 0 <= i && i < len(result0.Contents.Value) ==> !contains(result0.Contents.Value[i].Value, "/../"))
+//@   -- the manifest (the node tree yaml.Unmarshal produced) is a local object; the postcondition can only say that
+//@   -- there is one of which the result is the exact image
+//@   ensures image_schema: err == nil ==> (exists y *YAMLModFile :: allocated(y) && fresh(y) && y.Schema.Value == "1.2" && y.Schema.Tag == "!!str"
+//@                           && result0.Schema.Line == y.Schema.Line - 1 && result0.Schema.Column == y.Schema.Column - 1)
+//@   ensures image_contents: err == nil ==> (exists y *YAMLModFile :: allocated(y) && fresh(y) && y.Contents.Tag == "!!seq"
+//@                           && result0.Contents.Line == y.Contents.Line - 1 && result0.Contents.Column == y.Contents.Column - 1
+//@                           && len(result0.Contents.Value) == len(y.Contents.Content)
+//@                           && (forall i int :: 0 <= i && i < len(y.Contents.Content) ==>
+//@                                   result0.Contents.Value[i].Line == y.Contents.Content[i].Line - 1
+//@                                && result0.Contents.Value[i].Column == y.Contents.Content[i].Column - 1
+//@                                && (plainEntry(y.Contents.Content[i].Value) ==> result0.Contents.Value[i].Value == y.Contents.Content[i].Value)))
+//@   loop 1 invariant errs_same: errors != nil && errors == pre(errors)
+//@   loop 1 invariant count: len(errors.Errors) + len(contents) == pre(len(errors.Errors)) + $i
+//@   loop 1 invariant at_most_one: 0 <= len(contents) && len(contents) <= $i
+//@   loop 1 invariant schema_kept: modFile.Schema.Value == pre(modFile.Schema.Value) && modFile.Schema.Line == pre(modFile.Schema.Line) && modFile.Schema.Column == pre(modFile.Schema.Column)
+//@   loop 1 invariant relative: forall i int :: 0 <= i && i < len(contents) ==> !hasPrefix(contents[i].Value, "/")
+//@   loop 1 invariant no_backslash: forall i int :: 0 <= i && i < len(contents) ==> !contains(contents[i].Value, "\\")
+//@   loop 1 invariant fga_suffix: forall i int :: 0 <= i && i < len(contents) ==> hasSuffix(contents[i].Value, ".fga")
+//@   loop 1 invariant no_traversal: forall i int :: 0 <= i && i < len(contents) ==> !contains(contents[i].Value, "../")
+//@   loop 1 invariant image: len(errors.Errors) == 0 ==> (forall i int :: 0 <= i && i < $i ==>
+//@                                   contents[i].Line == yamlModFile.Contents.Content[i].Line - 1
+//@                                && contents[i].Column == yamlModFile.Contents.Content[i].Column - 1
+//@                                && (plainEntry(yamlModFile.Contents.Content[i].Value) ==> contents[i].Value == yamlModFile.Contents.Content[i].Value))
